@@ -16,7 +16,7 @@ RULES = {
          "JSON round trips of ChemicalCompositionVec, ChemicalCompositionMap and ElementSpecification; class = (form, "
          "size, has isotopes, outcome)"),
 }
-MODULES = ["Props.C07"]
+MODULES = ["Props.C07", "Inst.C07"]
 
 
 def run(r: Run):
